@@ -1,6 +1,6 @@
 PROPERTY = 'C32'
 LEVEL = 'proof'
-VERUS = ['verus/C32.rs']
+VERUS = ['verus/C32.rs', 'verus/C32_settle.rs']
 TRUSTED = [
     'prelude / monomorphisation / U256 contract as in C01; glue_u128 forwarding wrappers',
     'carrier Order{builder_fee_amount}: record_builder_fee touches only that field',
@@ -8,13 +8,13 @@ TRUSTED = [
 ]
 UNVERIFIED = [
     'decrease path: `paid = clamp_builder_fee_amount(payable, output_amount)` then `record_builder_fee(paid)` inside execute_decrease_position (private, over Anchor account wrappers): the two expressions are located by text on every run (lost => exit 2) but the surrounding function is not proved; clamp itself (min) is proved',
-    'settlement `settled = recorded.min(escrow.amount)`, transfer, `builder_fee_amount = 0` in instructions/builder_fee.rs (Context handler, SPL transfer CPI): located by text on every run, not proved',
+    'settlement handler: the SPL transfer_checked CPI is one ghost-ledger entry (assumed: it fails or moves exactly the amount), AccountLoader::load()/load_mut() are projections, the event CPI is an arbitrary fallible call; account constraints (escrow / claim vault ATAs, signer seeds) are Anchor attributes outside both verifiers',
 ]
 ASSUMPTIONS = []
 MANIFEST = dict(engine='verus',
-    technique='Verus contracts on the private free functions compute/clamp/charge/estimate builder fee and Order::record_builder_fee, extracted by text from /repo each run',
-    text='Deductive proof, unbounded over sizes, factors, prices, increments: fee == ceil(floor(size*f/U) / min price) (rounded up, never under-collected), zero factor => zero fee without reading the price; increase: Ok implies fee + remaining == increment, shortfall is an error; estimate: bypass swap type rejected for any non-zero factor; clamp == min; record accumulates with overflow failing and leaving the record unchanged.',
-    note='Trusted: Verus+Z3, prelude, glue. The decrease-path clamp call and the settlement handler are only located, not proved (listed).')
+    technique='Verus contracts on the private free functions compute/clamp/charge/estimate builder fee, Order::record_builder_fee and the whole SettleBuilderFee::invoke handler (SPL transfer as a ghost-ledger entry), extracted by text from /repo each run',
+    text='Deductive proof, unbounded over sizes, factors, prices, increments: fee == ceil(floor(size*f/U) / min price) (rounded up, never under-collected), zero factor => zero fee without reading the price; increase: Ok implies fee + remaining == increment, shortfall is an error; estimate: bypass swap type rejected for any non-zero factor; clamp == min; record accumulates with overflow failing and leaving the record unchanged. Settlement (whole handler): a zero record is a no-op without any transfer; otherwise exactly one transfer from the escrow to the claim vault of the recorded builder, of min(recorded amount, escrow balance), after which the record is zero - so repeating the settlement is the no-op.',
+    note='Trusted: Verus+Z3, prelude, glue. The decrease-path clamp call is only located, not proved (listed); the settlement handler is proved on carriers (SPL transfer assumed atomic).')
 
 
 def extra(res, repo, tier, seed):
